@@ -373,9 +373,35 @@ func init() {
 		},
 
 		// ------------------------------------------------------------ sync
-		"(*sync.Mutex).Lock": intrNoop, "(*sync.Mutex).Unlock": intrNoop, "(*sync.Mutex).TryLock": intrTrue,
-		"(*sync.RWMutex).Lock": intrNoop, "(*sync.RWMutex).Unlock": intrNoop,
-		"(*sync.RWMutex).RLock": intrNoop, "(*sync.RWMutex).RUnlock": intrNoop,
+		// mutexes: lock state is tracked per mutex (writer held / reader count). Under the one
+		// cooperative schedule there is no contention to explore, but a goroutine that locks a
+		// mutex it already holds (or that nobody will ever release) blocks forever: reported
+		// as a deadlock, as the Go runtime does
+		"(*sync.Mutex).Lock": func(in *Interp, fn *ssa.Function, a []Value, _ ssa.CallInstruction) Value {
+			in.mutexLock(a[0], true)
+			return nil
+		},
+		"(*sync.Mutex).Unlock": func(in *Interp, fn *ssa.Function, a []Value, _ ssa.CallInstruction) Value {
+			in.mutexUnlock(a[0], true)
+			return nil
+		},
+		"(*sync.Mutex).TryLock": func(in *Interp, fn *ssa.Function, a []Value, _ ssa.CallInstruction) Value { return in.mutexTry(a[0]) },
+		"(*sync.RWMutex).Lock": func(in *Interp, fn *ssa.Function, a []Value, _ ssa.CallInstruction) Value {
+			in.mutexLock(a[0], true)
+			return nil
+		},
+		"(*sync.RWMutex).Unlock": func(in *Interp, fn *ssa.Function, a []Value, _ ssa.CallInstruction) Value {
+			in.mutexUnlock(a[0], true)
+			return nil
+		},
+		"(*sync.RWMutex).RLock": func(in *Interp, fn *ssa.Function, a []Value, _ ssa.CallInstruction) Value {
+			in.mutexLock(a[0], false)
+			return nil
+		},
+		"(*sync.RWMutex).RUnlock": func(in *Interp, fn *ssa.Function, a []Value, _ ssa.CallInstruction) Value {
+			in.mutexUnlock(a[0], false)
+			return nil
+		},
 		"(*sync.WaitGroup).Add": intrNoop, "(*sync.WaitGroup).Done": intrNoop, "(*sync.WaitGroup).Wait": intrNoop,
 		"(*sync.Once).Do": func(in *Interp, fn *ssa.Function, a []Value, _ ssa.CallInstruction) Value {
 			p := a[0].(*Value)
@@ -820,6 +846,67 @@ func intrSortSlice(in *Interp, fn *ssa.Function, a []Value, _ ssa.CallInstructio
 		}
 	}
 	return nil
+}
+
+// mutexState is the lock state of one sync.Mutex / sync.RWMutex.
+type mutexState struct {
+	writer  bool
+	readers int
+}
+
+func (in *Interp) mutexOf(v Value) *mutexState {
+	p, _ := v.(*Value)
+	if p == nil {
+		in.runtimePanic("invalid memory address or nil pointer dereference (nil mutex)")
+	}
+	if in.mutexes == nil {
+		in.mutexes = map[*Value]*mutexState{}
+	}
+	m := in.mutexes[p]
+	if m == nil {
+		m = &mutexState{}
+		in.mutexes[p] = m
+	}
+	return m
+}
+
+func (in *Interp) mutexLock(v Value, write bool) {
+	m := in.mutexOf(v)
+	free := func() bool { return !m.writer && (!write || m.readers == 0) }
+	if !free() {
+		if !in.block(free) {
+			panic(pathEnd{"deadlock", "mutex locked again while held and never released (blocked forever) at " + in.stackString()})
+		}
+	}
+	if write {
+		m.writer = true
+	} else {
+		m.readers++
+	}
+}
+
+func (in *Interp) mutexUnlock(v Value, write bool) {
+	m := in.mutexOf(v)
+	if write {
+		if !m.writer {
+			in.runtimePanic("sync: unlock of unlocked mutex")
+		}
+		m.writer = false
+		return
+	}
+	if m.readers == 0 {
+		in.runtimePanic("sync: RUnlock of unlocked RWMutex")
+	}
+	m.readers--
+}
+
+func (in *Interp) mutexTry(v Value) Value {
+	m := in.mutexOf(v)
+	if m.writer || m.readers > 0 {
+		return false
+	}
+	m.writer = true
+	return true
 }
 
 // signalType is the dynamic type of delivered signals (syscall.Signal).
